@@ -23,7 +23,7 @@ TECHNIQUE = 'descriptor/audit monitor (/proc/self/fd diff + sys.addaudithook + R
 RULE = ('base files from vlib.model.gen_file; corruption kinds x API x ownership x index; non-trivial = the API raised, or a '
         'close->read->close history ran; distinct = (corruption kind, outcome raised/returned + exception type, API, path|stream, index kind)')
 ASSUMPTIONS = ['Linux /proc/self/fd is authoritative for open descriptors', 'the harness closes all files it opens itself (with-blocks)']
-REQUIRED = ['defragment_calls', 'caller_index_streams_checked', 'writer_reuse_blocks', 'api_calls', 'api_raised', 'fd_scans', 'library_open_events', 'after_close_ops', 'caller_streams_checked', 'writer_sessions',
+REQUIRED = ['big_file_calls', 'suspended_iterators_across_close', 'defragment_calls', 'caller_index_streams_checked', 'writer_reuse_blocks', 'api_calls', 'api_raised', 'fd_scans', 'library_open_events', 'after_close_ops', 'caller_streams_checked', 'writer_sessions',
             'index_opened_by_library', 'double_close']
 N = {'quick': 40, 'thorough': 2500}
 
@@ -166,6 +166,9 @@ def run_case(case, ctx):
                 fdmon.take_warnings()
                 with fdmon.NoGC():
                     one_call(ctx, TdmsFile, api, own, path, bad, info, fresh_vals if ik in ('none', 'matching') else None, rng, ik)
+    # ---- chunks of 1 MiB and more (block-size thresholds), results kept alive across close()
+    if case['corrupt'] == 'none' and case['r'] == 0 and case['s'] % 8 == 0:
+        big_file_case(case, ctx, TdmsFile, path, ipath)
     # ---- a caller-supplied INDEX stream (content starting with TDSh) is a caller stream too
     if case['corrupt'] in ('none', 'garbage', 'bad-tag-later'):
         for api in ('read', 'read_metadata', 'open-close', 'with'):
@@ -280,8 +283,51 @@ def run_case(case, ctx):
                         ctx.count('library_open_events', len(fdmon.take_opens()))
 
 
+def big_file_case(case, ctx, TdmsFile, path, ipath):
+    rng = random.Random('c20big/%d' % case['s'])
+    n = rng.choice([131072, 131072 + 5, 200000])
+    vals = np.arange(2 * n, dtype='f8')
+    it = iter([vals[:n], vals[n:]])
+    segs = M.build_file(rng, [('g', 'c', 'f64', n, [])], nseg=1, nchunks=(2,), values_fn=lambda p, t, k: next(it))
+    blob = M.encode_file(segs)[0]
+    if os.path.exists(ipath):
+        os.remove(ipath)
+    util.write_file(path, blob)
+    for api in ('open-close', 'with', 'read'):
+        ctx.evaluation()
+        info = {'big_file': True, 'values_per_chunk': n, 'api': api}
+        fdmon.take_opens()
+        fdmon.take_warnings()
+        with fdmon.NoGC():
+            held = []
+            try:
+                if api == 'read':
+                    tf = TdmsFile.read(path)
+                    held.append(tf['g']['c'][:])
+                else:
+                    tf = TdmsFile.open(path)
+                    c = tf['g']['c']
+                    held.append(c[n + 1])                                   # the one-chunk cache now holds a 1 MiB chunk
+                    held.extend(ch[:] for ch in c.data_chunks())
+                    held.extend(fc['g']['c'][:] for fc in tf.data_chunks())
+                    held.append(c[:])
+                    held.append(c.read_data(3, n))
+                    itf = tf.data_chunks()
+                    held.extend([itf, next(itf)])
+                    tf.close()
+                ctx.count('big_file_calls')
+                scan(ctx, 'big-file/%s' % api, info)
+                if not np.array_equal(np.asarray(held[0]).ravel()[:1], vals[n + 1:n + 2] if api != 'read' else vals[:1]):
+                    ctx.violation('big-file/wrong-data', info)
+            except Exception as ex:
+                ctx.violation('big-file/raises/%s' % util.exc_key(ex), dict(info, exc=util.exc_detail(ex)))
+            del held[:]
+            tf = None
+
+
 def one_call(ctx, TdmsFile, api, own, path, bad, info, fresh_vals, rng, ik):
     stream = None
+    held = []
     arg = path
     if own == 'stream':
         stream = io.BytesIO(bad)
@@ -317,6 +363,17 @@ def one_call(ctx, TdmsFile, api, own, path, bad, info, fresh_vals, rng, ik):
             chans = [c for g in tf.groups() for c in g.channels() if len(c)]
             for c in chans[:2]:
                 c[rng.choice([0, len(c) - 1, len(c) // 2])]      # fills the one-chunk cache with some chunk
+            # iterators suspended in mid-stream and the arrays they handed out stay referenced across close()
+            try:
+                it_file = tf.data_chunks()
+                fc = next(it_file)
+                held.extend([it_file, fc] + [cc[:] for gc_ in fc.groups() for cc in gc_.channels()])
+                if chans:
+                    it_ch = chans[0].data_chunks()
+                    held.extend([it_ch, next(it_ch)[:]])
+                ctx.count('suspended_iterators_across_close')
+            except StopIteration:
+                pass
             tf.close()
             tf.close()
             ctx.count('double_close')
@@ -415,4 +472,5 @@ def one_call(ctx, TdmsFile, api, own, path, bad, info, fresh_vals, rng, ik):
                 stream.close()
     if raised is not None or api == 'open-history':
         ctx.distinct((info['corrupt'], outcome, api, own, ik))
+    del held[:]
     del raised
